@@ -55,7 +55,8 @@ impl Case {
     }
 }
 
-const VALUES: &[&str] = &["a", "b", "c", "d"];
+// parameter values are plain strings: the empty string and a blank are values like any other
+const VALUES: &[&str] = &["a", "", "c", " "];
 
 fn gen_case(rng: &mut Rng, base: u64, long: bool) -> Case {
     let mode = rng.below(5); // 0,1 iso only; 2,3 hotspot only; 4 mixed
